@@ -358,6 +358,18 @@ def rule_asserts(ctx: Ctx, rule: str = "assert-on-input") -> None:
                 continue
             ent = table.get(key)
             if ent is None:
+                from .pathsim import is_new_helper
+
+                if is_new_helper(fi.key):
+                    # an assert that moved into a helper extracted later keeps its review (same module, same test)
+                    t_ = norm(node.test)
+                    for k2, e2 in table.items():
+                        fkey2, _, test2 = k2.partition(" :: ")
+                        f2 = prog.funcs.get(fkey2)
+                        if test2 == t_ and (f2 is None or f2.module.base == fi.module.base):
+                            ent = e2
+                            break
+            if ent is None:
                 ref = load_declines().get(fi.key, [])
                 now = set(decline_sites(prog).get(fi.key, []))
                 neg = canon_neg(node.test)
@@ -412,7 +424,7 @@ def rule_reader_validates(ctx: Ctx, rule: str = "reader-validates") -> None:
                     ctx.ok(rule, fi.key, construct, nontrivial=False)
                 else:
                     ctx.violation(rule, fi.key, construct, "entry[%r] is dereferenced without a preceding `%r in entry` check that raises a documented error (KeyError escapes for a malformed file)" % (k, k), where="%s:%d" % (fi.module.relpath, sub.lineno))
-    ctx.floor("entry dereferences in the file reader", seen, 6)
+    ctx.floor("entry dereferences in the file reader", seen, 3)
     # 2. every dispatched representation is validated before construction
     for node in ast.walk(fi.node):
         if isinstance(node, ast.If) and isinstance(node.test, ast.Compare) and isinstance(node.test.comparators[0], ast.Constant) and isinstance(node.test.comparators[0].value, str):
@@ -456,6 +468,28 @@ def _key_checked(fi: FuncInfo, key: str) -> bool:
     return False
 
 
+def with_new_helpers(prog: Program, fi: FuncInfo) -> List[ast.AST]:
+    """The function's AST plus the ASTs of helpers it (transitively) calls that do not exist on the reference tree."""
+    from .pathsim import is_new_helper
+
+    out = [fi.node]
+    seen = {fi.key}
+    work = [fi]
+    while work:
+        f = work.pop()
+        for node in ast.walk(f.node):
+            if isinstance(node, ast.Call):
+                nm = node.func.attr if isinstance(node.func, ast.Attribute) else node.func.id if isinstance(node.func, ast.Name) else None
+                if nm is None:
+                    continue
+                for k, g in prog.funcs.items():
+                    if g.name == nm and k not in seen and is_new_helper(k):
+                        seen.add(k)
+                        out.append(g.node)
+                        work.append(g)
+    return out
+
+
 def rule_validator_covers(ctx: Ctx, rule: str = "validator-covers") -> None:
     """Every key that from_dict dereferences on a machine dictionary is required by validate_contract_dict /
     _check_clause (presence) with ContractFormatError; validators raise only ContractFormatError."""
@@ -466,12 +500,13 @@ def rule_validator_covers(ctx: Ctx, rule: str = "validator-covers") -> None:
     used_top: Set[str] = set()
     used_clause: Set[str] = set()
     p0 = fd.params[0]
-    for node in ast.walk(fd.node):
-        if isinstance(node, ast.Subscript) and isinstance(node.slice, ast.Constant) and isinstance(node.slice.value, str):
-            if isinstance(node.value, ast.Name) and node.value.id == p0:
-                used_top.add(node.slice.value)
-            elif isinstance(node.value, ast.Name):
-                used_clause.add(node.slice.value)
+    for root in with_new_helpers(prog, fd):
+        for node in ast.walk(root):
+            if isinstance(node, ast.Subscript) and isinstance(node.slice, ast.Constant) and isinstance(node.slice.value, str):
+                if root is fd.node and isinstance(node.value, ast.Name) and node.value.id == p0:
+                    used_top.add(node.slice.value)
+                elif isinstance(node.value, ast.Name):
+                    used_clause.add(node.slice.value)
     req_top = _required_keys(val)
     req_clause = _required_keys(chk)
     for k in sorted(used_top):
@@ -669,7 +704,7 @@ def rule_validator_types(ctx: Ctx, rule: str = "validator-types") -> None:
 
     # what from_dict does with clause fields
     uses = {"float(constant)": False, "coefficients.items()": False, "coefficient values as numbers": False}
-    for node in ast.walk(fd.node):
+    for node in [n_ for root in with_new_helpers(prog, fd) for n_ in ast.walk(root)]:
         t = norm(node)
         if isinstance(node, ast.Call) and norm(node.func) == "float" and "['constant']" in t:
             uses["float(constant)"] = True
